@@ -210,7 +210,12 @@ func exec(planJSON []byte, run *core.Run) {
 	seed := core.NewPRNG(p.KeySeed).Bytes(s.SeedSize())
 
 	// --- responder derives its key; the auditor repeats the derivation ---
+	seedKeep := append([]byte{}, seed...)
 	pk, sk := s.DeriveKeyPair(seed)
+	if !bytes.Equal(seed, seedKeep) {
+		run.Violate(comp+".DeriveKeyPair", "operation-modifies-its-operand", "the seed buffer changed during key derivation")
+		return
+	}
 	pkB, err1 := pk.MarshalBinary()
 	skB, err2 := sk.MarshalBinary()
 	if err1 != nil || err2 != nil {
@@ -345,7 +350,12 @@ func exec(planJSON []byte, run *core.Run) {
 				}
 			}
 		default:
+			eKeep := append([]byte{}, eseed...)
 			ct, ss, err = s.EncapsulateDeterministically(ipk, eseed)
+			if !bytes.Equal(eseed, eKeep) {
+				run.Violate(comp+".EncapsulateDeterministically", "operation-modifies-its-operand", "the encapsulation seed buffer changed")
+				return
+			}
 			if err == nil {
 				c2, s2, _ := s.EncapsulateDeterministically(pk, append([]byte{}, eseed...))
 				if !bytes.Equal(ct, c2) || !bytes.Equal(ss, s2) {
@@ -420,8 +430,13 @@ func exec(planJSON []byte, run *core.Run) {
 			pkS = skO.Public()
 			_ = pkOB
 		}
+		wireKeep := append([]byte{}, wire...)
 		r1, ok := decap(cur, wire, auth, pkS)
 		if !ok {
+			return
+		}
+		if !bytes.Equal(wire, wireKeep) {
+			run.Violate(comp+".Decapsulate", "operation-modifies-its-operand", "session %d: the ciphertext buffer changed during decapsulation", i)
 			return
 		}
 		r2, ok := decap(skDisk, append([]byte{}, wire...), auth, pkS)
